@@ -259,8 +259,13 @@ def op_delslice(raw: List[int], vmin: int, vmax: int, start: int, stop: int) -> 
         return True
     start = P['START']
 
+    step = P.get('STEP', 1)
+
     def operation(seq):
-        del seq[start:stop]
+        if step == 1:
+            del seq[start:stop]
+        else:
+            del seq[start:stop:step]
 
     return _step(raw, vmin, vmax, operation)
 
@@ -287,8 +292,13 @@ def op_setslice(raw: List[int], vmin: int, vmax: int, start: int, stop: int, ext
             return True
     items = _mk_items(extra)
 
+    step = P.get('STEP', 1)
+
     def operation(seq):
-        seq[start:stop] = _rhs(items)
+        if step == 1:
+            seq[start:stop] = _rhs(items)
+        else:
+            seq[start:stop:step] = _rhs(items)     # a plain list insists on equal lengths here (ValueError)
 
     return _step(raw, vmin, vmax, operation)
 
@@ -423,6 +433,14 @@ def shards(tier, seed):  # pylint: disable=unused-argument
                                          bounds='one %s step, slice start %d, stop symbolic in -4..4, right-hand side a '
                                                 '%s, from every valid vector of K<=%d items, MIN/MAX symbolic in 0..16' % (
                                                     name, start, rhs, par['K'])))
+                if (thorough or (kind, item) == ('P', 0)):
+                    for step in (2, -1):
+                        for start in (range(-4, 5) if thorough else (0, -1, 3)):
+                            out.append(Shard(MOD, name, '%s/%s%s/start%+d/step%+d' % (name, kind, item or '', start, step),
+                                         dict(par, START=start, STEP=step, RHS='list'), 300 if thorough else 120,
+                                         bounds='one %s step on the extended slice [%d:stop:%d], stop symbolic in -4..4, '
+                                                'from every valid vector of K<=%d items, MIN/MAX symbolic in 0..16' % (
+                                                    name, start, step, par['K'])))
                 continue
             if name in ('op_extend', 'op_iadd'):
                 for rhs in ('iter', 'tuple'):
